@@ -67,6 +67,13 @@ def recipes():
           R_("compress", "L", lambda np, a: np.compress([True, False, True], a.ravel()[:3])), R_("delete", "L", lambda np, a: np.delete(a.ravel(), 0)),
           R_("pad", "L", lambda np, a: np.pad(a.ravel(), 1)), R_("pad:constant", "LL", lambda np, a, c: np.pad(a.ravel(), 1, constant_values=c.ravel()[0])),
           R_("clip", "LLL", lambda np, a, lo, hi: np.clip(a, np.minimum(lo, hi).ravel()[0], np.maximum(lo, hi).ravel()[0])),
+          # optional unit-carrying arguments: only a later one given, an earlier one omitted or None
+          R_("clip:max_only", "LL", lambda np, a, hi: np.clip(a, None, hi.ravel()[0])), R_("clip:min_only", "LL", lambda np, a, lo: np.clip(a, lo.ravel()[0], None)),
+          R_("nan_to_num:inf_fills", "LLL", lambda np, a, p_, n_: np.nan_to_num(a * np.where(np.arange(a.size).reshape(a.shape) % 3 == 0, np.inf, 1.0) * np.where(np.arange(a.size).reshape(a.shape) % 3 == 1, -1.0, 1.0),
+                                                                                posinf=p_.ravel()[0], neginf=n_.ravel()[0])),
+          R_("nan_to_num:all_fills", "LLLL", lambda np, a, z_, p_, n_: np.nan_to_num(a * np.where(np.arange(a.size).reshape(a.shape) % 2 == 0, np.inf, 1.0), nan=z_.ravel()[0], posinf=p_.ravel()[0], neginf=n_.ravel()[0])),
+          R_("max:initial", "LL", lambda np, a, b: np.max(a, initial=b.ravel()[0])), R_("min:initial", "LL", lambda np, a, b: np.min(a, initial=b.ravel()[0])),
+          R_("sum:initial", "LL", lambda np, a, b: np.sum(a, initial=b.ravel()[0])),
           R_("append", "LL", lambda np, a, b: np.append(a, b)), R_("concatenate", "LL", lambda np, a, b: np.concatenate([a.ravel(), b.ravel()])), R_("stack", "LL", lambda np, a, b: np.stack([a.ravel(), b.ravel()])),
           R_("hstack", "LL", lambda np, a, b: np.hstack([a.ravel(), b.ravel()])), R_("vstack", "LL", lambda np, a, b: np.vstack([a.ravel(), b.ravel()])), R_("dstack", "LL", lambda np, a, b: np.dstack([a.ravel(), b.ravel()])),
           R_("column_stack", "LL", lambda np, a, b: np.column_stack([a.ravel(), b.ravel()])), R_("block", "LL", lambda np, a, b: np.block([a.ravel(), b.ravel()])),
@@ -229,7 +236,7 @@ def case_call(case, col=None):
 
     R = env.R()
     ureg = env.ureg("float")
-    rec = RECIPES[case["recipe"]]
+    rec = _recipe(case["recipe"])
     shape = tuple(case["shape"])
     rng_vals = case["values"]
     n = int(np.prod(shape))
@@ -304,6 +311,14 @@ def _short(n):
 
 
 RECIPES = recipes()
+RECIPE_BY_NAME = {r["name"]: r for r in RECIPES}
+assert len(RECIPE_BY_NAME) == len(RECIPES), "recipe names must be unique"
+
+
+def _recipe(ref):
+    """cases name their recipe (older replay files carry an index into the table)"""
+    return RECIPE_BY_NAME[ref] if isinstance(ref, str) else RECIPES[ref]
+
 
 
 def _call_strategy(idxs):
@@ -320,7 +335,7 @@ def _call_strategy(idxs):
         vals = draw(st.lists(st.integers(1, 40).map(float), min_size=6, max_size=12))
         if draw(st.booleans()):
             vals = [v + 0.5 for v in vals]
-        return {"recipe": i, "unitsA": uA, "unitsB": uB, "shape": list(shape), "values": vals, "nan": draw(st.sampled_from([0, 1, 2, 3]))}
+        return {"recipe": rec["name"], "unitsA": uA, "unitsB": uB, "shape": list(shape), "values": vals, "nan": draw(st.sampled_from([0, 1, 2, 3]))}
 
     return strat()
 
@@ -339,7 +354,7 @@ def case_error(case, col=None):
 
     R = env.R()
     ureg = env.ureg("float")
-    rec = RECIPES[case["recipe"]]
+    rec = _recipe(case["recipe"])
     roles = rec["roles"]
     if len(roles) < 2 or roles[0] != roles[1] or rec["out"] in ("prod", "quot") or rec["name"] == "isin":
         raise Skip("no_same_dimension_slot")
@@ -358,7 +373,7 @@ def case_error(case, col=None):
 
 def run_errors(task, tier, seed, col):
     for i in range(len(RECIPES)):
-        col.run_case(lambda c: case_error(c, col), {"recipe": i})
+        col.run_case(lambda c: case_error(c, col), {"recipe": RECIPES[i]["name"]})
     col.exhaustive = True
 
 
